@@ -1,4 +1,5 @@
 import XtModel.Lemmas.Stream
+import XtModel.Lemmas.Encoding
 import XtModel.Props.C03
 import XtModel.Props.C09
 
@@ -418,6 +419,34 @@ example : HeldBound (4 + 8 + 1) 0 [0, 1, 9] (eagerRun 12 (sizesOf 4 [5, 7]) exDo
 example : coalesce [.rd 0 3, .wr 1, .wr 2, .wr 3, .rd 3 0, .wr 4] = [.rd 0 3, .wr 6, .rd 3 0, .wr 4] := by
   simp [coalesce]
 
+/-! ## K10: YAML in UTF-16 / UTF-32 — the re-encoder is NOT demand driven
+
+`Utf8Encoder::read` (src/yaml/encoding.rs) is the reader libyaml pulls from
+when the stream is not UTF-8.  As modelled (`Xt.Encoding.read`, tied to the code
+by C07's correspondence), a successful call never returns early: it keeps
+pulling characters — and therefore source reads — until the caller's buffer is
+full or the source ends.  libyaml hands it a 16 KiB buffer, so for such a
+stream the look-ahead is one buffer of text (up to 32 / 64 KiB of source), not
+"document k+2": `DemandDrivenButLast` does not hold for it and the property's
+sentence fails on the real code for streams of small documents (known finding
+K10; the harness still requires the look-ahead to stay within that one
+buffer). -/
+
+open Xt.Encoding in
+/-- A successful `read` with an `n`-byte buffer returns exactly
+`min n (bytes still pending)` bytes: short only at the end of the text. -/
+theorem utf_encoder_fills_buffer (st : Xt.Encoding.St) (n : Nat) (out : List Nat) (st' : Xt.Encoding.St)
+    (h : Xt.Encoding.read st n = (.ok out, st')) :
+    out.length = min n st.pending.length := by
+  have h1 := (read_ok st n out st' h).1
+  rw [h1, List.length_take]
+
+open Xt.Encoding in
+/-- Non-vacuity, and the finding in one line: three one-byte documents' worth
+of characters are all pulled from the source by ONE 3-byte read. -/
+example : (Xt.Encoding.read ⟨[.ch 97, .ch 98, .ch 99], []⟩ 3).1 = .ok [97, 98, 99] := by
+  simp [Xt.Encoding.read, Xt.Encoding.fill, Xt.Encoding.utf8]
+
 #print axioms lag_ok_spec
 #print axioms lag_ok_at_spec
 #print axioms model_trace_lag_ok
@@ -437,5 +466,6 @@ example : coalesce [.rd 0 3, .wr 1, .wr 2, .wr 3, .rd 3 0, .wr 4] = [.rd 0 3, .w
 #print axioms Xt.Props.C09.capture_released
 #print axioms Xt.Props.C09.toml_trial_capped
 #print axioms Xt.Props.C09.detect_reads_first_doc_only
+#print axioms utf_encoder_fills_buffer
 
 end Xt.Props.C05
